@@ -56,6 +56,9 @@ func MrandFloat64() float64 {
 	if !active() {
 		return 0
 	}
+	if S.cfg.RandFree {
+		return RandFloats[ChooseFree(len(RandFloats))]
+	}
 	return RandFloats[Choose(len(RandFloats))]
 }
 
